@@ -456,6 +456,21 @@ Theorem C18_put_guards_from_source :
 Proof. exact (conj put_guards_order put_accepts_spec). Qed.
 Print Assumptions C18_put_guards_from_source.
 
+(* the order of effects the save model (Model/CredSave.v) and the lock discipline of
+   the concurrent model (Model/CredConc.v) assume is the order in the source: an
+   extra Unlock/Lock inside PutCredential, a save outside the lock, a write that
+   bypasses Ingest + Rename, a chmod after the copy ... change these lists *)
+Theorem C18_call_order_from_source :
+  calls_saveFile = [b "os.MkdirAll"; b "ioutil.Ingest"; b "os.Remove"; b "os.Rename"] /\
+  calls_Ingest = [b "os.CreateTemp"; b "tempFile.Close"; b "os.Remove"; b "tempFile.Chmod"; b "io.Copy"] /\
+  calls_PutCredential = [b "cfg.rwLock.Lock"; b "cfg.rwLock.Unlock"; b "json.Marshal"; b "cfg.saveFile"] /\
+  calls_DeleteCredential = [b "cfg.rwLock.Lock"; b "cfg.rwLock.Unlock"; b "cfg.saveFile"] /\
+  calls_SetCredentialsStore = [b "cfg.rwLock.Lock"; b "cfg.rwLock.Unlock"; b "cfg.saveFile"] /\
+  calls_GetCredential = [b "cfg.rwLock.RLock"; b "cfg.rwLock.RUnlock"; b "json.Unmarshal"] /\
+  calls_IsAuthConfigured = [b "cfg.rwLock.RLock"; b "cfg.rwLock.RUnlock"].
+Proof. exact call_orders. Qed.
+Print Assumptions C18_call_order_from_source.
+
 Theorem C18_to_hostname_from_source :
   forall addr, to_hostname addr = cut_before slash (trim_prefix (b "https://") (trim_prefix (b "http://") addr)).
 Proof. exact to_hostname_spec. Qed.
